@@ -8,7 +8,9 @@
 
 extern "C" void __sanitizer_set_death_callback(void (*)(void)) __attribute__((weak));
 
-__attribute__((weak)) void harness_init(const std::string &) {}
+#ifndef VERIF_HAVE_INIT
+void harness_init(const std::string &) {}
+#endif
 
 namespace vf {
 
